@@ -30,6 +30,9 @@ type MemStream struct {
 	Gate     func(p []byte)                     // called first by every Write, outside the lock: may block
 	Name     string
 	closeN   int
+	// CloseErr, if set, is what Close returns - after closing all the same (a transport whose Close
+	// reports a failure, e.g. a TLS connection that cannot send its close alert)
+	CloseErr error
 }
 
 // NewMemStream returns an open stream.
@@ -120,7 +123,7 @@ func (s *MemStream) Close() error {
 	s.closeN++
 	s.cond.Broadcast()
 	s.mu.Unlock()
-	return nil
+	return s.CloseErr
 }
 
 func (s *MemStream) String() string { return "mem://" + s.Name }
